@@ -872,6 +872,8 @@ class KeywordSearches:
                 data, parent, parentref, translated_path, ancestry,
                 relay_segment)
         else:
+            translated_path = YAMLPath(translated_path)
+            ancestry = list(ancestry)
             for _ in range(parent_levels):
                 translated_path.pop()
                 (data, _) = ancestry.pop()
